@@ -229,6 +229,11 @@ bool ComponentEntity::replaceComponent(size_t index, const ComponentPtr &newComp
     ParentedEntityPtr parent = nullptr;
     if (oldComponent != nullptr) {
         parent = oldComponent->parent();
+        // A component cannot take the place of a child of itself or of one of its
+        // descendants: the hierarchy would become cyclic.
+        if ((parent == newComponent) || ((parent != nullptr) && parent->hasAncestor(newComponent))) {
+            return status;
+        }
         // The replacement moves here: it leaves its previous owner.
         auto previousOwner = newComponent->parent();
         if ((previousOwner != nullptr) && (previousOwner != parent)) {
